@@ -2,7 +2,10 @@
    (T) coq/Properties_C17.v   (G) gen/c17_leaf.py: log_table_256 + SWAR constants + leaf function texts from bit.c
    (K-inner) harness/embed_c17.c (dlopens lib/srfi/151/bit.so, calls the seven C entry points on fixnums and
              hand-built bignum word arrays) vs the extracted model (coq/C17/Model.v), word for word
-   (K-outer) every export of (srfi 151) through the Scheme API vs the extracted Z spec (coq/C17/Spec.v)."""
+   (K-outer) every export of (srfi 151) through the Scheme API vs the extracted Z spec (coq/C17/Spec.v).
+   (G) gen/c17_bitwise.py: every definition of lib/srfi/151/bitwise.scm, 142.sld, 33.sld as Gallina (coq/Gen/C17_Bitwise.v, C17_Wrappers.v);
+       the extracted regenerated definitions run on the outer cases too (translator validation)
+   harness/c17_extra.py: (srfi 33)/(srfi 142) conventions, list/vector/fold/unfold/generator/n-ary forms, hostile arguments under ASan."""
 import os, subprocess
 from vlib import build as B, scm
 
@@ -133,7 +136,10 @@ def run(ctx):
         "fixnum-sized values; shift counts and bit indices crossing multiples of 64 in both directions; the seven C entry points of "
         "bit.so vs the extracted model compared word for word (sign, every data word, fixnum/bignum class, operands unchanged); "
         "outer: every (srfi 151) export over the same lattice x shift counts x field bounds through the Scheme API vs the extracted Z "
-        "spec, results must also be canonical (fixnum iff it fits); distinct = distinct request; non-trivial = some operand is a bignum")
+        "spec, results must also be canonical (fixnum iff it fits); (srfi 33)/(srfi 142) and the list/vector/fold/unfold/generator/n-ary forms vs a python "
+        "oracle written from the SRFI texts; hostile arguments (non-integers, flonum integers, counts/indices beyond the word and fixnum range, "
+        "shifts that exhaust memory) of the seven C entry points under ASan: value or error, never a crash; "
+        "distinct = distinct request; non-trivial = some operand is a bignum (or hostile)")
     from gen import c17_leaf
     c17_leaf.regen(ctx)          # (G) coq/Gen/C17_Leaf.v from lib/srfi/151/bit.c
     from gen import c17_bitwise
@@ -148,8 +154,19 @@ def run(ctx):
     edge = lattice(rng, 0, 260, dense=False)      # the sub-lattice at word boundaries, used for all-pairs sweeps
     inner(ctx, d, exe, rng, lat, edge, n_in)
     outer(ctx, d, exe, rng, lat, edge, n_out)
+    # (K-outer) (srfi 33) / (srfi 142) with their own argument conventions, the list / vector / higher-order / n-ary forms of
+    # (srfi 151); hostile arguments of the seven C entry points under ASan (value or error, never a crash)
+    import importlib.util
+    sp = importlib.util.spec_from_file_location("c17_extra", os.path.join(HERE, "..", "harness", "c17_extra.py"))
+    extra = importlib.util.module_from_spec(sp)
+    sp.loader.exec_module(extra)
+    extra.wrappers(ctx, d, exe, rng, lat)
+    extra.errors(ctx, rng)
     ctx.assume("bit.c is compiled for 64-bit words (SEXP_64_BIT, sexp_uint_t = 64 bits, 62-bit fixnums); other word sizes are outside the model")
-    ctx.assume("shift counts and bit indices are fixnums of moderate size (|count| <= ~1100 here); allocation failure for huge left shifts is outside the property")
+    ctx.assume("in the value correspondence shift counts and bit indices are fixnums of moderate size (|count| <= ~1100); huge / non-fixnum counts, "
+               "indices and allocation failure are covered for the outcome class only (value or error, never a crash; harness/c17_extra.py errors())")
+    ctx.assume("the theorems about bitwise.scm / 142.sld / 33.sld speak about their text with the C primitives replaced by the Z operations "
+               "those are proved to compute (Properties_C17 bit_and_Z ... bit_set_Z), i.e. about Scheme evaluation with exact integers, outside error cases")
     ctx.trust("C semantics assumed where the standard leaves them to the implementation: >> of a negative sexp_sint_t is an arithmetic shift; "
               "log2i's 1<<64 for negative fixnums (UB) is only reached when the result does not matter (the bignum path is taken either way)")
 
@@ -414,6 +431,28 @@ def replay(ctx, j):
             i = subprocess.run([emb, so], input=q + "\n", capture_output=True, text=True, env=B.chibi_env(d), timeout=60).stdout.split("\n")[0]
             ok = (m == i)
             print("%s  request=%s model=%s impl=%s" % ("ok  " if ok else "FAIL", q, m, i))
+        elif c.get("sig", "").startswith(("srfi33:", "srfi142:", "bit.c:")) or not str(c.get("expected", "")).startswith(("V ", "B ", "UNDEF")):
+            # cases of harness/c17_extra.py: expected is the canonical text of the python oracle's value (None: any value or error, no crash)
+            import importlib.util
+            sp = importlib.util.spec_from_file_location("c17_extra", os.path.join(HERE, "..", "harness", "c17_extra.py"))
+            extra = importlib.util.module_from_spec(sp)
+            sp.loader.exec_module(extra)
+            sig = c.get("sig", "")
+            lib = sig.split(":")[0][4:] if sig.startswith("srfi") else "151"
+            exp = c.get("expected")
+            if sig.startswith("bit.c:"):
+                # hostile-argument case: same build variant and memory cap as harness/c17_extra.py errors()
+                oom = ":oom/" in sig or "/oom" in sig or "oom/" in sig
+                if sig.endswith(":default"):
+                    i = extra.run_batch(d, [q], "(import (srfi 151))", prelude_extra=extra.SUMMARY, timeout=20, mem_mb=192 if oom else 4096)[0]
+                else:
+                    opts = extra.ASAN_OPTS.replace("max_allocation_size_mb=4096", "max_allocation_size_mb=%d" % (100 if oom else 4096))
+                    i = extra.run_batch(ctx.build("asan"), [q], "(import (srfi 151))", prelude_extra=extra.SUMMARY, timeout=20, env={"ASAN_OPTIONS": opts})[0]
+                ok = i is not None and i != "TIMEOUT" and not extra._is_crash(i) and (exp in (None, "None") or str(exp).startswith("an error") or i.startswith("ERR") or i == exp)
+            else:
+                i = extra.run_batch(d, [q], "(import (srfi %s))" % lib, mem_mb=1024, timeout=20)[0]
+                ok = (i == exp)
+            print("%s  %s expected=%s impl=%s" % ("ok  " if ok else "FAIL", q[:200], exp, (i or "")[:200]))
         else:
             i = scm.run_cases(d, [q], imports="(import (srfi 151))")[0]
             ok, why = agree(c.get("expected", ""), i)
